@@ -176,7 +176,7 @@ def ready_set_shifts(ctx, prop="C01"):
 def run(ctx):
     import os
     os.environ["GOGC"] = "1"      # stress the Go runtime: collections (and finalizers) inside every lock section
-    framework.check_facts(ctx, ctx.facts, ["with_lock", "lock_sites", "writer_calls"])
+    framework.check_facts(ctx, ctx.facts, ["with_lock", "lock_sites", "writer_calls", "open_sites"])
     res = fndiff.run_stream(ctx.ev, ["fn-replay", str(ctx.seed + 100), "1200" if ctx.quick else "20000"])
     ctx.tie("T2-fn readyTasks (what claim selects)", cases=res["cases"], disagreements=len(res["diffs"]))
     ctx.count(res["cases"])
